@@ -17,7 +17,7 @@ for pid in ids:
         "thorough_cmd": f"/venv/bin/python /verif/check.py {pid} --tier thorough",
         "evidence_file": f"/verif/evidence/{pid}.json",
         "replay_cmd_template": "/venv/bin/python /verif/check.py --replay {path}",
-        "engine": s["engine"],
+        "engine": s.get("engine") or "+".join(q["engine"] for q in s["parts"]),
         "level_claimed": {"category": s["level"], "text": s["level_text"], "design_ref": s.get("design_ref", "DESIGN.md sec. 4, " + pid)},
         "level_note": s["level_note"],
         "technique": s["technique"],
@@ -29,7 +29,8 @@ for pid in ids:
     na.append({"property_id": pid, "reason": NOT_APPLICABLE.get(pid, "check under construction (DESIGN.md sec. 4); not yet claimed")})
 engines = {}
 for pid, s in PROPERTIES.items():
-    engines.setdefault(s["engine"], []).append(pid)
+    for e in ([s["engine"]] if "engine" in s else [q["engine"] for q in s["parts"]]):
+        engines.setdefault(e, []).append(pid)
 m = {
     "version": 1,
     "setup_cmd": "/venv/bin/python /verif/setup_check.py",
